@@ -84,7 +84,7 @@ out.append("### 4.2 Recorded, not repaired")
 out.append("Listed per property above. The recurring reasons: the defect is in the pinned **gogen** dependency "
            "(module cache, outside /repo: constant values kept through conversions, parentheses around composite literals "
            "in statement headers, label errors in map order, builtins declared as ordinary functions, one position for all "
-           "names of a `:=`); the repository's own golden tests pin the defective output (C04 negative steps, C37 "
+           "names of a `:=`, constant `unsafe.Sizeof` of an invalid recursive type evaluated without a validity check); the repository's own golden tests pin the defective output (C04 negative steps, C37 "
            "`func() (int)`, C06 `var d = -a`); the behaviour is a design decision of the tool chain that contradicts the "
            "property as stated (C06: semantic checks left to `go build`; C14: command-style call syntax, `$` in strings); "
            "or the repair is not a small patch (C03 forwarded multi-value `?`, C09 block-comment doc, C12 synthetic AST).")
